@@ -143,7 +143,8 @@ type videoParams struct {
 	// H264
 	sps, pps []byte
 	// H265
-	vps []byte
+	vps     []byte
+	h265Idx int // which of the captured parameter sets the variant is derived from
 	// VP9
 	vp9W, vp9H int
 	vp9Profile uint8
@@ -205,6 +206,7 @@ func videoParamVariantR(codec string, k int, reorder bool) *videoParams {
 		p.pps = []byte{0x68, 0xce, 0x38, byte(0x80 | (k/len(dims))&0x3f)}
 	case "h265":
 		p.sps = h265SPSs[k%len(h265SPSs)]
+		p.h265Idx = k % len(h265SPSs)
 		// further variants: the same parameter sets with general_tier_flag = 1 (High tier) or
 		// general_profile_space = 1 (byte 3 of the NAL unit: profile_space(2) tier(1) profile_idc(5))
 		switch (k / len(h265SPSs)) % 4 {
@@ -214,6 +216,14 @@ func videoParamVariantR(codec string, k int, reorder bool) *videoParams {
 		case 3:
 			p.sps = append([]byte(nil), p.sps...)
 			p.sps[3] |= 0x40
+		case 2:
+			// Range Extensions, 4:2:2 10 bit: general_profile_idc 4 with its compatibility flag and the constraint
+			// flags max_12bit, max_10bit, max_422chroma, lower_bit_rate (the two chroma flags differ)
+			raw := removeEPB(p.sps[2:])
+			raw[1] = raw[1]&0xe0 | 4
+			raw[2], raw[3], raw[4], raw[5] = 0x08, 0, 0, 0
+			raw[6], raw[7], raw[8], raw[9], raw[10], raw[11] = 0x9d, 0x08, 0, 0, 0, 0
+			p.sps = append([]byte{p.sps[0], p.sps[1]}, addEPB(raw)...)
 		}
 		p.pps = h265PPS
 		p.vps = []byte{0x40, 0x01, 0x0c, 0x01, 0xff, 0xff, byte(0x10 + (k/len(h265SPSs))%8), 0x60}
